@@ -46,9 +46,19 @@ type BinData struct {
 	Log  *[]int
 }
 
+// A processor fails (returns a value together with an error) when one of its
+// inputs carries the failure marker '!': nodes that start failing after they
+// have succeeded are part of the property's histories too.
+func outcome(id int, s string) (string, error) {
+	if strings.Contains(s[strings.IndexAny(s, "([")+1:], "!") {
+		return fmt.Sprintf("n%d!failed", id), fmt.Errorf("node %d rejects its input", id)
+	}
+	return s, nil
+}
+
 func (d BinData) Process() (string, error) {
 	*d.Log = append(*d.Log, d.ID)
-	return fmt.Sprintf("n%d(%s|%s)", d.ID, in(d.A), in(d.B)), nil
+	return outcome(d.ID, fmt.Sprintf("n%d(%s|%s)", d.ID, in(d.A), in(d.B)))
 }
 
 type TriData struct {
@@ -59,7 +69,7 @@ type TriData struct {
 
 func (d TriData) Process() (string, error) {
 	*d.Log = append(*d.Log, d.ID)
-	return fmt.Sprintf("n%d(%s|%s|%s)", d.ID, in(d.A), in(d.B), in(d.C)), nil
+	return outcome(d.ID, fmt.Sprintf("n%d(%s|%s|%s)", d.ID, in(d.A), in(d.B), in(d.C)))
 }
 
 type ArrData struct {
@@ -74,7 +84,7 @@ func (d ArrData) Process() (string, error) {
 	for _, v := range d.Values {
 		p = append(p, in(v))
 	}
-	return fmt.Sprintf("n%d[%s]", d.ID, strings.Join(p, ",")), nil
+	return outcome(d.ID, fmt.Sprintf("n%d[%s]", d.ID, strings.Join(p, ",")))
 }
 
 type MixData struct {
@@ -90,7 +100,7 @@ func (d MixData) Process() (string, error) {
 	for _, v := range d.Values {
 		p = append(p, in(v))
 	}
-	return fmt.Sprintf("n%d(%s|[%s])", d.ID, in(d.A), strings.Join(p, ",")), nil
+	return outcome(d.ID, fmt.Sprintf("n%d(%s|[%s])", d.ID, in(d.A), strings.Join(p, ",")))
 }
 
 // ------------------------------------------------------------ model
@@ -151,14 +161,17 @@ func (w *world) eval(i int) string {
 	for _, r := range n.arr {
 		a = append(a, w.evalRef(r))
 	}
+	var v string
 	switch n.kind {
 	case kBin, kTri:
-		return fmt.Sprintf("n%d(%s)", i, strings.Join(s, "|"))
+		v = fmt.Sprintf("n%d(%s)", i, strings.Join(s, "|"))
 	case kArr:
-		return fmt.Sprintf("n%d[%s]", i, strings.Join(a, ","))
+		v = fmt.Sprintf("n%d[%s]", i, strings.Join(a, ","))
 	default:
-		return fmt.Sprintf("n%d(%s|[%s])", i, s[0], strings.Join(a, ","))
+		v = fmt.Sprintf("n%d(%s|[%s])", i, s[0], strings.Join(a, ","))
 	}
+	v, _ = outcome(i, v)
+	return v
 }
 
 // dependsOn: does node i transitively depend on ref target t?
@@ -369,7 +382,7 @@ func (Scenario) Run(c choice.Chooser, opt sim.Options) (res sim.Result) {
 	changedSinceRead := false
 	serial := 1
 	for more := true; more; more = len(hist) < 41 && c.Intn("more", 16) != 0 {
-		kind := choice.Pick(c, "op:kind", []int{6, 4, 2, 2, 2, 1})
+		kind := choice.Pick(c, "op:kind", []int{6, 4, 2, 2, 2, 1, 1, 1})
 		res.Evals++
 		res.Steps++
 		w.log = w.log[:0]
@@ -413,6 +426,10 @@ func (Scenario) Run(c choice.Chooser, opt sim.Options) (res sim.Result) {
 			v := w.srcVal[s]
 			if !same {
 				v = fmt.Sprintf("s%d.%d", s, serial)
+				if c.Intn("op:poison", 8) == 7 {
+					v += "!" // downstream processors fail on this value
+					res.Count("fault:processor-returns-error", 1)
+				}
 				serial++
 			}
 			what = fmt.Sprintf("update src%d:=%s", s, v)
@@ -481,6 +498,41 @@ func (Scenario) Run(c choice.Chooser, opt sim.Options) (res sim.Result) {
 			changedSinceRead = true
 			hist = append(hist, what)
 			res.Count("op:array-remove", 1)
+		case 6: // a rejected update: malformed message to a parameter source
+			s := c.Intn("op:src", ns)
+			if w.srcKind[s] != 0 {
+				continue
+			}
+			msg := []string{"{", "5", "\"abc", "[1,2", "tru"}[c.Intn("op:badmsg", 5)]
+			what = fmt.Sprintf("update src%d with malformed message %q", s, msg)
+			vBefore := w.params[s].Version()
+			_, err := w.params[s].ApplyMessage([]byte(msg))
+			hist = append(hist, fmt.Sprintf("%s -> err=%v", what, err != nil))
+			res.Count("fault:malformed-update", 1)
+			if err == nil {
+				return violate("malformed-update-accepted", what+" was accepted")
+			}
+			if got := w.params[s].Value(); got != w.srcVal[s] {
+				return violate("stale-read", fmt.Sprintf("after the rejected %s the parameter reads %q, it held %q", what, got, w.srcVal[s]))
+			}
+			if w.params[s].Version() != vBefore {
+				// a version bump without a change would only cause needless
+				// recomputation; tolerated by the permissive reading
+				w.markDependents(-(s + 1))
+			}
+		case 7: // read a source directly
+			s := c.Intn("op:src", ns)
+			what = fmt.Sprintf("read src%d", s)
+			var got string
+			if w.srcKind[s] == 0 {
+				got = w.params[s].Value()
+			} else {
+				got = w.values[s].Value()
+			}
+			hist = append(hist, what+" -> "+got)
+			if got != w.srcVal[s] {
+				return violate("stale-read", fmt.Sprintf("%s returned %q, last value set is %q", what, got, w.srcVal[s]))
+			}
 		default: // look at state / version: must execute nothing
 			i := c.Intn("op:node", nn)
 			what = fmt.Sprintf("state n%d", i)
